@@ -101,6 +101,7 @@ def required_cells(tier):
         "zeta<1": 3, "zeta=1": 2, "zeta>1": 3, "zeta<1&T>0": 2,
         "eps:default": 3, "eps:explicit": 3,
         "cells_vs_eta": 100, "cells_vs_own": 30, "tiling": 10,
+        "own:upper-triangle": 3, "own:square": 5, "own:rectangle": 5,
         "symmetry": 20, "corr_vs_ref": 20, "closed_form_T0": 3,
         "twin_identical": 10, "triangle_positive": 10,
         "matsubara_real": 20, "matsubara_vs_ref": 20, "matsubara_cells": 10,
@@ -615,10 +616,11 @@ def run_sd(case):
         # own-correlation oracle on a rotating subset (cost: ~50-200
         # correlation() evaluations each)
         span = ((t2 if t2 is not None else t1 + dt) - (t1 - dt)) * wc
-        want = (n == (i % 3)) or (cls not in own_classes
-                                  and n >= 3 and len(own_classes) < own_budget)
+        want = (n == (i % 3)) or (n >= 3 and span <= 8.0
+                                  and len(own_classes) < own_budget)
         if want and span <= 8.0:
-            own_classes.add(cls)
+            if n >= 3:
+                own_classes.add(cls)
             own, nodes = _weighted_own(
                 lambda s: obj.correlation(s, **epskw), shape, dt, t1, t2,
                 wc, p["zeta"])
@@ -756,6 +758,9 @@ def run_sd(case):
 
     J.note("integration_warnings", nwarn)
     J.count("lib_integration_warnings", nwarn)
+    if not cl.subohmic_thermal:
+        # headroom figure outside the regime of the known cancellation finding
+        J.note("worst_ratio_outside_subohmic_thermal", J.maxratio)
     sig = (variant, p["cutoff_type"], tclass, zclass, eps is None,
            tuple(sorted(set(cell_sig))))
     return {
@@ -895,9 +900,9 @@ def _matsubara(J, rng, obj, p, pref, epskw, eps_eff, nq, cells_cov, quick, i,
 STRADDLE = ("square:t1=0", "square:straddle", "square:t1<0", "rect:straddle")
 # dblquad across a kink of C at tau = 0 (e.g. a e^{-(g+iw)|tau|}) reaches only
 # ~5e-6 relative whatever epsrel is requested (scipy warns); calibrated extra
-# term for that sub-class only: worst observed err/(max|C| * area) = 4.5e-6,
-# frozen with 10x headroom.  Smooth callables use the normal bound.
-C_KINK = 5e-5
+# term for that sub-class only: worst observed err/(max|C| * area) = 7.3e-6,
+# frozen at 1e-4 (>= 10x headroom).  Smooth callables use the normal bound.
+C_KINK = 1e-4
 
 
 def _full_menu(rng, dt, i):
